@@ -182,16 +182,36 @@ def run(pid: str, tier: str, seed: int, selftest=False, replay=None) -> int:
     rep.extra["small_scope_bodies"] = len(flats)
     for q, fl in enumerate(flats):
         bodies.append(("small:" + "-".join(str(x) for x in fl), render_body(fl, 3, (8, 32, 64)[q % 3])))
+    # bodies that already contain kernel ops next to ordinary arithmetic (a kernel op fed by arith ops, followed by one, two kernel ops):
+    # only convert-kernel-to-linalg runs on these
+    kbodies = []
+    for k in range(80 if quick else 1500):
+        w = rng.choice([8, 32, 64])
+        vals = ["%b0", "%b1", "%b2"]
+        lines = []
+        shape = rng.choice(["ak", "aak", "ka", "kk", "aka", "k"])
+        for j, c in enumerate(shape):
+            a, b = rng.choice(vals), rng.choice(vals)
+            if c == "a":
+                lines.append(f"%v{j + 1} = arith.{rng.choice(['addi', 'muli', 'subi'])} {a}, {b} : i{w}")
+            else:
+                if lines and rng.random() < 0.8:
+                    a = f"%v{j}"          # fed by the previous op
+                    if rng.random() < 0.5:
+                        a, b = b, a
+                lines.append(f"%v{j + 1} = kernel.{rng.choice(['add', 'mul', 'mac'])} {a}, {b} : i{w}, i{w} -> i{w}")
+            vals.append(f"%v{j + 1}")
+        kbodies.append((f"kmix:{seed}:{k}", ([w, w, w], lines, f"%v{len(shape)}")))
     cases = []
     recognised = 0
-    for name, (widths, lines, yv) in bodies:
+    for name, (widths, lines, yv) in bodies + kbodies:
         text = generic_text(widths, lines, yv)
         try:
             src = repo.parse(text)
             src.verify()
         except Exception as e:
             raise MachineryError(f"generator produced invalid body {name}: {e}\n{text}")
-        for pipe in ("convert-linalg-to-kernel", "convert-linalg-to-kernel,convert-kernel-to-linalg"):
+        for pipe in (("convert-kernel-to-linalg",) if name.startswith("kmix:") else ("convert-linalg-to-kernel", "convert-linalg-to-kernel,convert-kernel-to-linalg")):
             m = src.clone()
             try:
                 repo.run_pipeline(m, pipe)
